@@ -21,8 +21,9 @@ open Retro Retro.Buf
 /-! ## Constructors reject exactly the dimensions the data cannot hold -/
 
 /-- `Inner::new` succeeds iff rows do not overlap (`w ≤ stride`) and the last row ends inside the
-data (and that end fits `u32`, which the code needs to compute it). The two middle assertions
-(`stride ≤ len`, `h ≤ len`) are implied. -/
+data: `h = 0 ∨ (h−1)·stride + w ≤ len`. The two middle assertions (`stride ≤ len`, `h ≤ len`) are
+implied. The size is computed in `usize` (since 7b7718a), so there is no representability condition
+and the statement holds in the release profile as well as with overflow checks. -/
 theorem ctor_rejects (w h stride len : Nat) :
     innerNew w h stride len = .ok () ↔ Fits w h stride len := innerNew_ok_iff w h stride len
 
@@ -34,21 +35,16 @@ theorem ctor_rejects_panics (w h stride len : Nat) (hn : ¬ Fits w h stride len)
   · exact h
 
 /-- The independent statement of "the data can hold the dimensions" used by the oracle
-(`Spec.Grid.holds`) coincides with the model's acceptance whenever the size is representable. -/
-theorem ctor_matches_spec (w h stride len : Nat) (hu : h = 0 ∨ (h - 1) * stride + w < 4294967296) :
+(`Spec.Grid.holds`) coincides with the model's acceptance — for all arguments. -/
+theorem ctor_matches_spec (w h stride len : Nat) :
     innerNew w h stride len = .ok () ↔ Spec.Grid.holds w h stride len = true := by
   rw [innerNew_ok_iff]
   unfold Fits Spec.Grid.holds
   simp only [Bool.and_eq_true, Bool.or_eq_true, decide_eq_true_eq, beq_iff_eq]
-  constructor
-  · rintro ⟨h1, h2⟩; exact ⟨h1, by rcases h2 with h2 | h2; exact Or.inl h2; exact Or.inr h2.1⟩
-  · rintro ⟨h1, h2⟩
-    refine ⟨h1, ?_⟩
-    rcases h2 with h2 | h2
-    · exact Or.inl h2
-    · rcases hu with hu | hu
-      · exact Or.inl hu
-      · exact Or.inr ⟨h2, hu⟩
+
+/-- The release-build witness of the former `u32` size computation: a 1×65537 view with stride 65536
+needs 65536·65536 + 1 elements; over 65537 elements it is rejected (the wrapped size was 1). -/
+example : ¬ Fits 1 65537 65536 65537 ∧ (innerNew 1 65537 65536 65537).isOk = false := by decide
 
 example : Fits 2 2 3 5 ∧ ¬ Fits 2 2 3 4 ∧ ¬ Fits 4 4 3 16 ∧ Fits 0 5 0 0 := by decide
 
@@ -154,14 +150,6 @@ theorem rowOf_getElem? (root : List α) (v : View) (x y : Nat) (hx : x < v.w) :
     (rowOf root v y)[x]? = root[v.off + (y * v.stride + x)]? := by
   simp [rowOf, hx, Nat.add_assoc]
 
-/-- A valid view of non-zero width has fewer than 2^32 rows … -/
-theorem height_le_u32 {v : View} (hf : Fits v.w v.h v.stride v.len) (hw : 0 < v.w) : v.h ≤ 4294967296 := by
-  obtain ⟨h1, h2⟩ := hf
-  rcases h2 with h0 | ⟨_, h4⟩
-  · omega
-  · have : v.h - 1 ≤ (v.h - 1) * v.stride := Nat.le_mul_of_pos_right _ (by omega)
-    omega
-
 theorem readRange_inside (root : List α) (v : View) (hv : ViewInv root.length v) {start n : Nat}
     (h : start + n ≤ v.len) : readRange root v start n = .ok ((root.drop (v.off + start)).take n) := by
   have := hv.2
@@ -170,11 +158,13 @@ theorem readRange_inside (root : List α) (v : View) (hv : ViewInv root.length v
   simp; omega
 
 /-- **row_refines.** `view[y]` for `y < height` (non-zero width) is row `y`: the `w` root elements
-starting at `off + y·stride`. -/
-theorem row_refines (root : List α) (v : View) (hv : ViewInv root.length v) (hw : 0 < v.w) {y : Nat}
+starting at `off + y·stride`. (`hh`: the height is a `u32`, so every `y < height` survives
+`u32::try_from`.) -/
+theorem row_refines (root : List α) (v : View) (hv : ViewInv root.length v) (hw : 0 < v.w)
+    (hh : v.h < 4294967296) {y : Nat}
     (hy : y < v.h) : rowIndex root v y = .ok (rowOf root v y) ∧ (rowOf root v y).length = v.w := by
   refine ⟨?_, rowOf_length root v hv hy⟩
-  have hy32 : y < 4294967296 := by have := height_le_u32 hv.1 hw; omega
+  have hy32 : y < 4294967296 := by omega
   have hi := toIndex_inside hv.1 (x := v.w - 1) (by omega) hy
   have h0 := toIndexChecked_inside hv.1 hw hy
   have hle : y * v.stride + v.w ≤ v.len := by omega
@@ -246,16 +236,16 @@ theorem slice_total (n : Nat) (v : View) (hv : ViewInv n v) (rc : Rect) (hin : I
     generalize hr : rc.right.getD v.w = r at *
     generalize hb : rc.bottom.getD v.h = b at *
     have hh0 : v.h ≠ 0 := by omega
-    obtain ⟨hlen, hu32⟩ : (v.h - 1) * v.stride + v.w ≤ v.len ∧ (v.h - 1) * v.stride + v.w < 4294967296 := by
+    have hlen : (v.h - 1) * v.stride + v.w ≤ v.len := by
       rcases hsz with h0 | h; exact absurd h0 hh0; exact h
     have mA : t * v.stride ≤ (b - 1) * v.stride := Nat.mul_le_mul_right _ (by omega)
     have mB : (b - 1) * v.stride ≤ (v.h - 1) * v.stride := Nat.mul_le_mul_right _ (by omega)
     have mC : (b - t - 1) * v.stride = (b - 1) * v.stride - t * v.stride := by
       rw [show b - t - 1 = b - 1 - t by omega, Nat.sub_mul]
-    have hstart : toIndex v l t = .ok (t * v.stride + l) := mulAddU32_ok (by omega)
-    have hstop : toIndex v r (b - 1) = .ok ((b - 1) * v.stride + r) := mulAddU32_ok (by omega)
+    have hstart : toIndex v l t = .ok (t * v.stride + l) := rfl
+    have hstop : toIndex v r (b - 1) = .ok ((b - 1) * v.stride + r) := rfl
     have hf : Fits (r - l) (b - t) v.stride ((b - 1) * v.stride + r - (t * v.stride + l)) :=
-      ⟨by omega, Or.inr ⟨by omega, by omega⟩⟩
+      ⟨by omega, Or.inr (by omega)⟩
     have e : childOf v rc = ⟨r - l, b - t, v.stride, v.off + (t * v.stride + l), (b - 1) * v.stride + r - (t * v.stride + l)⟩ := by
       simp [childOf, rcL, rcT, rcR, rcB, hl, ht, hr, hb, hbt]
     rw [e]
@@ -462,9 +452,9 @@ theorem rows_spec (root : List α) (v : View) (hv : ViewInv root.length v) (hw :
 
 /-- `rows()` agrees with row indexing: the `y`-th yielded row is `view[y]`. -/
 theorem rows_agree_with_row_index (root : List α) (v : View) (hv : ViewInv root.length v) (hw : 0 < v.w)
-    {y : Nat} (hy : y < v.h) :
+    (hh : v.h < 4294967296) {y : Nat} (hy : y < v.h) :
     ∃ rs r, Buf.rows root v = .ok rs ∧ rowIndex root v y = .ok r ∧ rs[y]? = some r :=
-  ⟨_, _, (rows_spec root v hv hw).1, (row_refines root v hv hw hy).1, denote_getElem? root v hy⟩
+  ⟨_, _, (rows_spec root v hv hw).1, (row_refines root v hv hw hh hy).1, denote_getElem? root v hy⟩
 
 /-- **rows_spec** (zero width). At most `height()` rows, all empty; no panic. -/
 theorem rows_zero_width (root : List α) (v : View) (hv : ViewInv root.length v) (hw : v.w = 0) :
@@ -541,11 +531,11 @@ theorem getMut_oob_none (root : List α) (v : View) {x y : Nat} (h : ¬ (x < v.w
   simp [getMutSet, toIndexChecked_outside v h]
 
 /-- `view[y][x] = a` through mutable row indexing: the same cell. -/
-theorem rowSet_frame (root : List α) (v : View) (hv : ViewInv root.length v) {x y : Nat}
-    (hx : x < v.w) (hy : y < v.h) (a : α) :
+theorem rowSet_frame (root : List α) (v : View) (hv : ViewInv root.length v) (hh : v.h < 4294967296)
+    {x y : Nat} (hx : x < v.w) (hy : y < v.h) (a : α) :
     rowSet root v y x a = .ok (root.set (v.off + (y * v.stride + x)) a) := by
   have hw : 0 < v.w := by omega
-  have hy32 : y < 4294967296 := by have := height_le_u32 hv.1 hw; omega
+  have hy32 : y < 4294967296 := by omega
   have hi := toIndex_inside hv.1 (x := v.w - 1) (by omega) hy
   have hi' := (toIndex_inside hv.1 hx hy).2
   have h0 := toIndexChecked_inside hv.1 hw hy
